@@ -63,6 +63,17 @@ def generate(rng, tier) -> dict:
             st = rng.randint(0, N - 1)
             ops.append({"op": "read_block", "start": st, "nsamps": rng.randint(1, N - st)})  # another API on the same reader in between
         ops.append(gen_plan(rng, N, bounds))
+    if N > 20000:
+        # long sets: keep every plan (and a K4 second reader's) to a few thousand blocks
+        for o in ops:
+            if o["op"] != "plan":
+                continue
+            n_eff = N - o["start"] if o["nsamps"] is None else o["nsamps"]
+            step = max(1, min(o["gulp"], max(1, n_eff)) - o["skipback"])
+            if n_eff // step > 2000:
+                o["gulp"] = o["skipback"] + max(1, n_eff // rng.randint(50, 2000))
+            if o.get("k4"):
+                o["k4"] = max(o["k4"], N // 1000)
     faults = []
     if rng.random() < 0.3:
         for _ in range(rng.choice([1, 1, 2])):
@@ -80,6 +91,10 @@ def gen_plan(rng, N, bounds) -> dict:
     elif r < 0.6:
         start = rng.randint(0, N)
         nsamps = None
+    elif r < 0.72 and len(bounds) > 1:
+        # a range that starts within a sample or two of a file boundary
+        start = max(0, min(N, int(rng.choice(bounds[:-1])) + rng.choice([-3, -2, -1, -1, 0, 1])))
+        nsamps = rng.choice([None, rng.randint(0, min(N - start, 4000))]) if N - start > 4000 else rng.choice([None, rng.randint(0, N - start)])
     else:
         start = rng.randint(0, N)
         nsamps = rng.randint(0, N - start)
